@@ -57,6 +57,13 @@ type Sched struct {
 	mu      sync.Mutex
 	points  [][]string
 	Filter  func(op int, point string, args []string) bool // nil: park at every point
+	// Starve[i] = n: while fewer than n moves have been made, a parked operation i is not released as long as
+	// another move is possible. Uniform choices almost never keep a three-step operation parked across a
+	// twenty-step one; this makes "one request stalls, others overtake it" a first-class generated shape.
+	Starve map[int]int
+	// StarveFrom[i] = k: operation i is released normally k times before Starve applies to it (k = 1: it stalls
+	// after its first step, e.g. after a check and before the action the check was meant to guard).
+	StarveFrom map[int]int
 }
 
 func goid() string {
@@ -109,6 +116,7 @@ func (s *Sched) Run(run func(i int) any, schedule []int) (res []Result, moves []
 	vals := make([]any, n)
 	state := make([]int, n)
 	at := make([]string, n)
+	released := make([]int, n)
 	clock := int64(0)
 	handle := func(e event) {
 		if e.kind == "parked" {
@@ -190,6 +198,18 @@ func (s *Sched) Run(run func(i int) any, schedule []int) (res []Result, moves []
 				return res, moves, overlap, fmt.Errorf("operations are stuck: states %v", state)
 			}
 		}
+		if len(s.Starve) > 0 {
+			var kept []int
+			for _, a := range enabled {
+				if a >= n && steps < s.Starve[a-n] && released[a-n] >= s.StarveFrom[a-n] {
+					continue
+				}
+				kept = append(kept, a)
+			}
+			if len(kept) > 0 {
+				enabled = kept
+			}
+		}
 		choice := 0
 		if si < len(schedule) {
 			choice = schedule[si]
@@ -225,6 +245,7 @@ func (s *Sched) Run(run func(i int) any, schedule []int) (res []Result, moves []
 				}
 			}
 			moves = append(moves, Move{Op: i, What: at[i], Avail: len(enabled)})
+			released[i]++
 			s.release[i] <- struct{}{}
 		}
 	}
